@@ -57,6 +57,8 @@ def fam_auto(seed, n):
         vars_ = {'x': ('state', fp()), 'z': ('state', fp()), 'u': ('input', fp())}
         for p in names:       # declaration order p0, p1, ...
             vars_[p] = ('const', fp())
+        if k % 4 == 2:
+            vars_['p1'] = ('const', F(0))      # a parameter whose value is exactly 0 keeps its declared slot
         op = OpSpec('ao', [('x', 'de', terms_x), ('z', 'de', terms_z)], vars_, output='x')
         li = families.op_leaky(fp)
         ops = {'ao': op, 'li': li}
